@@ -43,19 +43,74 @@ CONSISTENT = [(False, False, False), (True, False, False), (True, False, True), 
 
 
 # ------------------------------------------------------------------ generators
+UNICODE_BLANKS = [0x85, 0xA0, 0x1680] + list(range(0x2000, 0x200B)) + [0x2028, 0x2029, 0x202F, 0x205F, 0x3000]
+_LIVE = {}
+
+
+def in_domain(c):
+    """characters the model's `labelChar` admits: tab, printable ASCII, everything beyond ASCII"""
+    o = ord(c)
+    return c == "\t" or 0x20 <= o <= 0x7e or o >= 0x80
+
+
+def clean_label(s):
+    """the statement's domain: no leading / trailing whitespace (in the sense of str.strip, which includes U+00A0 etc.)"""
+    return s.strip()
+
+
+def live_chars():
+    """read off the LIVE library (not a fixed alphabet): every character of any tokenizer set, every character the two
+    protect classes of escape_nexus_token / NewickWriter make the writer quote, their code-point neighbours, and a sample
+    of Unicode blanks.  Returns (special, alphabet): the reader-special / writer-protected characters and the label alphabet"""
+    if "v" in _LIVE:
+        return _LIVE["v"]
+    import dendropy
+    from dendropy.dataio.nexusprocessing import NexusTokenizer, escape_nexus_token
+    from dendropy.dataio import newickwriter
+    tk = NexusTokenizer(io.StringIO(""))
+    special = set()
+    for st in (tk.captured_delimiters, tk.uncaptured_delimiters, tk.quote_chars, tk.comment_begin, tk.comment_end):
+        special.update(st)
+    w = newickwriter.NewickWriter(preserve_spaces=True, unquoted_underscores=True)
+    for o in list(range(1, 0x300)) + UNICODE_BLANKS:
+        c = chr(o)
+        if c in " _":
+            special.add(c)
+            continue
+        lab = "a" + c + "b"
+        try:
+            if escape_nexus_token(lab, preserve_spaces=True, quote_underscores=False) != lab:
+                special.add(c)
+            if w._render_node_tag(dendropy.Node(taxon=dendropy.Taxon(label=lab))) != lab:
+                special.add(c)
+        except Exception:
+            special.add(c)
+    alpha = set()
+    for c in special:
+        for d in (-1, 0, 1):
+            if 0 < ord(c) + d:
+                alpha.add(chr(ord(c) + d))
+    alpha.update(chr(o) for o in UNICODE_BLANKS)
+    alpha = sorted(c for c in alpha if in_domain(c) and len(c.lower()) == 1 and c.lower().upper() in (c, c.upper()))
+    _LIVE["v"] = (sorted(c for c in special if in_domain(c)), alpha)
+    return _LIVE["v"]
+
+
 def gen_label(rng, maxlen=6):
     r = rng.random()
     n = rng.choice([1, 1, 2, 2, 3, 4, maxlen])
+    special, alpha = live_chars()
     if r < 0.15:
         pool = PLAIN
     elif r < 0.22:
         pool = list("0123456789")
-    elif r < 0.6:
+    elif r < 0.5:
         pool = PLAIN + TABLE_CHARS * 2
+    elif r < 0.75:
+        pool = PLAIN + alpha
     else:
         pool = PLAIN + TABLE_CHARS + PRINTABLE
-    s = "".join(rng.choice(pool) for _ in range(n)).strip(" \t")
-    return s
+    return clean_label("".join(rng.choice(pool) for _ in range(n)))
 
 
 def gen_labels(rng, n, maxlen=6):
@@ -723,9 +778,9 @@ def exhaustive(ctx, dendropy, pending):
     rng = ctx.rng
     count = 0
     # every label-domain character alone / first / middle / last, each schema, default options + each consistent triple at label level
-    for c in PRINTABLE:
+    for c in sorted(set(PRINTABLE) | set(live_chars()[1])):
         forms = [c, c + "a", "a" + c + "b", "a" + c]
-        forms = [f for f in forms if f.strip(" \t") == f and f]
+        forms = [f for f in forms if clean_label(f) == f and f]
         for f in forms:
             for ps, uu, pu in CONSISTENT:
                 run_label(ctx, dendropy, f, ps, uu, pu, pending, follow=rng.choice(":,);"))
@@ -737,7 +792,7 @@ def exhaustive(ctx, dendropy, pending):
     # all ordered pairs of special characters, as a label and embedded
     for a, b in itertools.product(TABLE_CHARS, repeat=2):
         for f in (a + b, "x" + a + b + "y"):
-            if f.strip(" \t") != f:
+            if clean_label(f) != f:
                 continue
             ps, uu, pu = rng.choice(CONSISTENT)
             run_label(ctx, dendropy, f, ps, uu, pu, pending, follow=rng.choice(":,);"))
@@ -798,21 +853,20 @@ def replay(ctx, rec):
 
 
 def search(ctx, broken):
-    """obligations broke or the model disagrees: try every character of the tokenizer tables (as the tokenizer object reports
-    them now) and of the label domain as a label, in every schema"""
+    """obligations broke or the model disagrees: take from the LIVE library every character that is special for the reader
+    (tokenizer sets) or for the writer (protect classes), plus the neighbours and the Unicode blank sample, and round-trip
+    labels carrying each one in first / interior / last position (where the domain allows) through every schema"""
     dendropy = __import__("dendropy")
-    from dendropy.dataio.nexusprocessing import NexusTokenizer
-    tk = NexusTokenizer(io.StringIO(""))
-    chars = set(TABLE_CHARS)
-    for s in (tk.captured_delimiters, tk.uncaptured_delimiters, tk.quote_chars, tk.comment_begin, tk.comment_end):
-        chars.update(c for c in s if c in PRINTABLE)
+    special, alpha = live_chars()
     pending = []
-    for c in sorted(chars):
-        for f in ("a" + c + "b", c):
-            if f.strip(" \t") != f or not f:
+    for c in sorted(set(special) | set(alpha)):
+        for f in ("a" + c + "b", c + "a", "a" + c, c, "Pan" + c + "paniscus L."):
+            if clean_label(f) != f or not f:
                 continue
             for ps, uu, pu in CONSISTENT:
                 run_label(ctx, dendropy, f, ps, uu, pu, pending)
             for schema in SCHEMAS:
                 run_roundtrip(ctx, dendropy, simple_case(schema, [f, "zz"]), pending)
+        if len(pending) > 1500:
+            flush(ctx, pending)
     flush(ctx, pending)
